@@ -8,6 +8,9 @@ the input-independent parts of the property monitors (no oracle here needs to kn
   C02  no ratio improves across an element; passive elements and plain losses leave the three shares bit-identical
   C06  no channel leaves a ROADM with more power than it entered
   C07  per-channel identity data survive every element, frequencies stay strictly increasing, arrays equally long
+  C14  every pth_assign_spectrum call: accepted ranges were free on every OMS of the path (both directions) before the
+       call and are not shared with another request of the call; blocked requests carry no labels; the maps after the
+       call are exactly the maps before it plus the accepted ranges
   C15  Bitmap index contiguous / unique / as long as the map (icontract class invariant)
 
 The stock tests assert none of this (they compare end-of-line numbers); a change that keeps those numbers within the
@@ -120,7 +123,97 @@ def judge_c07(ctx, events, ops):
             ctx.violation('channel-lost', f'{where}: {b.n} channels entered, {a.n} left a non-amplifier element')
 
 
-JUDGES = {'C01': judge_c01, 'C02': judge_c02, 'C06': judge_c06, 'C07': judge_c07}
+_PAS = []
+
+
+def _install_assignment_recorder():
+    import functools
+    import gnpy.topology.spectrum_assignment as SA
+    real = SA.pth_assign_spectrum
+
+    @functools.wraps(real)
+    def recorded(pths, rqs, oms_list, rpths, *a, **k):
+        pths, rqs, rpths = list(pths), list(rqs), list(rpths)
+        before = [(list(o.spectrum_bitmap.freq_index), list(o.spectrum_bitmap.bitmap)) for o in oms_list]
+        pre_blocked = [hasattr(r, 'blocking_reason') for r in rqs]
+        err = None
+        try:
+            return real(pths, rqs, oms_list, rpths, *a, **k)
+        except Exception as e:  # noqa
+            err = e
+            raise
+        finally:
+            if len(_PAS) < 200:
+                steps = []
+                for pth, rq, rpth in zip(pths, rqs, rpths):
+                    ids = sorted({e.oms_id for e in list(pth) + list(rpth) if hasattr(e, 'oms_id')})
+                    steps.append({'id': rq.request_id, 'oms': ids, 'N': getattr(rq, 'N', None), 'M': getattr(rq, 'M', None),
+                                  'blocked': getattr(rq, 'blocking_reason', None)})
+                _PAS.append({'before': before, 'steps': steps, 'pre_blocked': pre_blocked, 'err': err,
+                             'after': [(list(o.spectrum_bitmap.freq_index), list(o.spectrum_bitmap.bitmap))
+                                       for o in oms_list]})
+    SA.pth_assign_spectrum = recorded
+    import sys
+    for name in ('gnpy.tools.worker_utils',):
+        m = sys.modules.get(name)
+        if m is not None and getattr(m, 'pth_assign_spectrum', None) is real:
+            m.pth_assign_spectrum = recorded
+
+
+def judge_c14(ctx, events, ops):
+    from gnpy.topology.spectrum_assignment import BitmapValue
+    FREE, OCC = BitmapValue.FREE, BitmapValue.OCCUPIED
+    for call in _PAS:
+        ctx.count('assignment_calls')
+        if call['err'] is not None:
+            ctx.skip('assignment-call-raised')     # fixtures also feed malformed requests on purpose
+            continue
+        maps = [dict(zip(fi, bm)) for fi, bm in call['before']]
+        taken = [set() for _ in maps]
+        bad = False
+        for st in call['steps']:
+            ctx.count('requests_in_calls')
+            where = f'request {st["id"]} on OMS {st["oms"]}'
+            if st['blocked'] is not None or st['N'] is None:
+                ctx.count('blocked')
+                if st['N'] is not None or st['M'] is not None:
+                    ctx.violation('blocked-with-labels', f'{where}: blocked ({st["blocked"]}) but N/M = {st["N"]}/{st["M"]}')
+                    bad = True
+                continue
+            try:
+                ranges = [(n - m, n + m - 1) for n, m in zip(st['N'], st['M']) if m is not None]
+            except TypeError:
+                ctx.skip('labels-not-lists')
+                bad = True
+                break
+            ctx.count('accepted')
+            for a, b in ranges:
+                for k in st['oms']:
+                    if k >= len(maps):
+                        continue
+                    notfree = [n for n in range(a, b + 1) if maps[k].get(n) != FREE]
+                    dbl = [n for n in range(a, b + 1) if n in taken[k]]
+                    if notfree or dbl:
+                        ctx.violation('double-booking', f'{where}: range [{a}, {b}] was accepted but slots '
+                                      f'{(notfree or dbl)[:6]} were {"not free before the call" if notfree else "given to an earlier request of the same call"} on OMS {k}')
+                        bad = True
+                    taken[k].update(range(a, b + 1))
+        if bad:
+            continue
+        ctx.count('final_occupancy_checks')
+        for k, (fi, bm) in enumerate(call['after']):
+            exp = [OCC if n in taken[k] else maps[k].get(n) for n in fi]
+            if list(call['before'][k][0]) != list(fi):
+                ctx.skip('map-extent-changed-during-call')
+                continue
+            if exp != list(bm):
+                diff = [n for n, x, y in zip(fi, bm, exp) if x != y][:6]
+                ctx.violation('final-occupancy', f'OMS {k}: the map after the call differs from the map before it plus '
+                              f'the accepted ranges at slots {diff}')
+                break
+
+
+JUDGES = {'C14': judge_c14, 'C01': judge_c01, 'C02': judge_c02, 'C06': judge_c06, 'C07': judge_c07}
 _INV = {'n': 0, 'fail': []}
 
 
@@ -145,12 +238,14 @@ def _install_bitmap_invariant():
 
 def pytest_configure(config):
     _state['out'] = open(os.environ['VF_STOCK_OUT'], 'a')
-    _state['mons'] = [m for m in os.environ.get('VF_STOCK_MON', 'C01,C02,C06,C07,C15').split(',') if m]
+    _state['mons'] = [m for m in os.environ.get('VF_STOCK_MON', 'C01,C02,C06,C07,C14,C15').split(',') if m]
     import logging
     from vf import attach
     attach.install()
     if 'C15' in _state['mons']:
         _install_bitmap_invariant()
+    if 'C14' in _state['mons']:
+        _install_assignment_recorder()
     logging.getLogger('vf').info('monitors installed')
 
 
@@ -160,6 +255,7 @@ def pytest_runtest_call(item):
     attach.reset(record_ops=True)
     _INV['n'] = 0
     _INV['fail'].clear()
+    _PAS.clear()
     outcome = yield
     events, ops = list(attach.EVENTS), list(attach.OPS)
     attach.reset(record_ops=False)
